@@ -147,6 +147,19 @@ def run(ctx: Ctx) -> None:
                 p.copy_(torch.randn_like(p) * (0.5 if n.endswith("bias") else 1.0) + (1.0 if getattr(p, "mup_type", "") == "norm" else 0.0))
         return m.to(dt)
 
+    class Temp(nn.Module):
+        """the same-named torch.nn module with the documented `mult` temperature applied to its input"""
+
+        def __init__(self, inner: nn.Module, mult: float) -> None:
+            super().__init__()
+            self.inner, self.mult = inner, mult
+
+        def forward(self, z):  # type: ignore[no-untyped-def]
+            return self.inner(z * self.mult)
+
+        def load_state_dict(self, sd, *a, **k):  # type: ignore[no-untyped-def]
+            return self.inner.load_state_dict(sd, *a, **k)
+
     BIN = [None, "to_output_scale", "to_grad_input_scale", "gmean", "hmean", "amean"]
 
     for rep in range(reps):
@@ -159,23 +172,20 @@ def run(ctx: Ctx) -> None:
                     m = uu.GELU(mult=mult, constraint=c, approximate=approx)
                     x = torch.randn(3, 5, dtype=dt)
                     versus_functional("GELU", key, m, x, lambda z: U.gelu(z, mult=mult, constraint=c, approximate=approx))
-                    if mult == 1.0:
-                        versus_twin("GELU", key, m, nn.GELU(approximate=approx), x)
+                    versus_twin("GELU", key, m, nn.GELU(approximate=approx) if mult == 1.0 else Temp(nn.GELU(approximate=approx), mult), x)
                 key = {"module": "SiLU", "mult": mult, "constraint": c}
                 ctx.count(key, bucket="SiLU")
                 m = uu.SiLU(mult=mult, constraint=c)
                 x = torch.randn(3, 5, dtype=dt)
                 versus_functional("SiLU", key, m, x, lambda z: U.silu(z, mult=mult, constraint=c))
-                if mult == 1.0:
-                    versus_twin("SiLU", key, m, nn.SiLU(), x)
+                versus_twin("SiLU", key, m, nn.SiLU() if mult == 1.0 else Temp(nn.SiLU(), mult), x)
                 for dim in (-1, 0, 1):
                     key = {"module": "Softmax", "dim": dim, "mult": mult, "constraint": c}
                     ctx.count(key, bucket="Softmax")
                     m = uu.Softmax(dim=dim, mult=mult, constraint=c)
                     x = torch.randn(3, 5, dtype=dt)
                     versus_functional("Softmax", key, m, x, lambda z: U.softmax(z, dim=dim, mult=mult, constraint=c))
-                    if mult == 1.0:
-                        versus_twin("Softmax", key, m, nn.Softmax(dim=dim), x)
+                    versus_twin("Softmax", key, m, nn.Softmax(dim=dim) if mult == 1.0 else Temp(nn.Softmax(dim=dim), mult), x)
         for p in (0.0, 0.1, 0.5):
             for training in (True, False):
                 key = {"module": "Dropout", "p": p, "training": training}
@@ -254,10 +264,10 @@ def run(ctx: Ctx) -> None:
         check_init("RMSNorm", {"module": "RMSNorm", "fresh": True}, lambda: uu.RMSNorm(8, elementwise_affine=True))
         # ---------------- Embedding
         for pidx in (None, 0, 3):
-            for mn in (None, 1.0):
-                key = {"module": "Embedding", "padding_idx": pidx, "max_norm": mn}
+            for mn, nt in ((None, 2.0), (1.0, 2.0), (1.0, 1.0), (0.7, 3.0), (1.0, float("inf"))):
+                key = {"module": "Embedding", "padding_idx": pidx, "max_norm": mn, "norm_type": nt}
                 ctx.count(key, bucket="Embedding")
-                m = randomise(uu.Embedding(7, 4, padding_idx=pidx, max_norm=mn))
+                m = randomise(uu.Embedding(7, 4, padding_idx=pidx, max_norm=mn, norm_type=nt))
                 idx = torch.randint(0, 7, (3, 5))
                 if mn is None:
                     versus_functional("Embedding", key, m, idx, lambda z: U.embedding(z, m.weight, pidx, mn, 2.0))
@@ -266,9 +276,9 @@ def run(ctx: Ctx) -> None:
                     with ctx.guard("C08:Embedding:forward", key):
                         w0 = m.weight.detach().clone()
                         y = m(idx)
-                        ref = F.embedding(idx, w0.clone(), pidx, mn)
+                        ref = F.embedding(idx, w0.clone(), pidx, mn, nt)
                         if y.shape != ref.shape or not torch.allclose(y, ref, rtol=1e-12):
-                            ctx.violation("C08:Embedding:max_norm", "max_norm is not honoured", key)
+                            ctx.violation("C08:Embedding:max_norm", "max_norm / norm_type is not honoured", key)
                 check_tags("Embedding", key, m, {"weight": "weight"})
         check_init("Embedding", {"module": "Embedding", "fresh": True}, lambda: uu.Embedding(256, 128))
         # ---------------- CrossEntropyLoss
